@@ -61,6 +61,9 @@ VALID = [
     'require ["imap4flags"];\nif allof (hasflag :is "Var" ["f1", "f2"], true) { addflag "Var" "f3"; removeflag "f1"; }\n',
     'require ["imap4flags"];\nif anyof (hasflag "x") { keep; }\nif hasflag "y" { discard; }\n',
     'require ["imap4flags"];\nif hasflag "z" { keep; }\n',
+    # a require inside a block (accepted by this parser; the loader ignores it)
+    'if true {\n  require "fileinto";\n  fileinto "x";\n}\n',
+    'require "copy";\nif true {\n  require ["fileinto", "envelope"];\n  fileinto :copy "x";\n}\n',
 ]
 # degenerate but valid scripts: nothing at all (as str and as bytes), a blank line, a lone comment
 DEGENERATE = ['', b'', '\n', '# only a comment\n']
